@@ -627,7 +627,7 @@ func initAllowed(path string) bool {
 		}
 	}
 	switch path {
-	case "io", "sort", "strconv", "unicode/utf8", "math", "math/bits", "io/fs", "context", "time", "bytes", "strings", "container/heap", "container/list", "encoding/hex", "unicode":
+	case "io", "sort", "strconv", "unicode/utf8", "math", "math/bits", "io/fs", "context", "bytes", "strings", "container/heap", "container/list", "encoding/hex", "unicode":
 		return true
 	}
 	return false
